@@ -40,16 +40,17 @@ def go_line(c):
 
 
 def cn(n):
-    """Coq term for a number; numerals are expensive for coqc (about 0.15 ms each, 1.5 ms for 19 digits), so large
-    values are written relative to the constants two62/two63/two64 of LaunchRun.v"""
-    if n < (1 << 32):
-        return str(n)
+    """Coq term of type N for a number.  N numerals are expensive for coqc (a Gallina conversion runs for each: about
+    0.15 ms, 1.5 ms for 19 digits) while primitive integers are read natively, so numbers are written as primitive
+    integers wrapped in LaunchRun.n, large values relative to the constants two62/two63/two64 of LaunchRun.v"""
+    if n < (1 << 62):
+        return "(n %d)" % n
     for (name, v) in (("two64", 1 << 64), ("two63", 1 << 63), ("two62", 1 << 62)):
-        if v - (1 << 24) <= n < v:
-            return "(%s-%d)" % (name, v - n)
-        if v <= n < v + (1 << 24):
-            return name if n == v else "(%s+%d)" % (name, n - v)
-    return str(n)
+        if v - (1 << 40) <= n < v:
+            return "(bel %s %d)" % (name, v - n)
+        if v <= n < v + (1 << 40):
+            return name if n == v else "(abv %s %d)" % (name, n - v)
+    return "(abv two62 %d)" % (n - (1 << 62)) if n < (1 << 63) else "(abv two63 %d)" % (n - (1 << 63))
 
 
 class VFile:
@@ -57,8 +58,8 @@ class VFile:
     def __init__(self):
         self.defs, self.order, self.items = {}, [], []
 
-    def intern(self, prefix, text):
-        if len(text) < 12:
+    def intern(self, prefix, text, force=False):
+        if len(text) < 12 and not force:
             return text
         if text not in self.defs:
             self.defs[text] = "%s%d" % (prefix, len(self.defs))
@@ -66,10 +67,16 @@ class VFile:
         return self.defs[text]
 
     def nl(self, xs):
+        xs = list(xs)
+        if not xs:
+            return "[]"
+        if all(x < (1 << 62) for x in xs):
+            return self.intern("l", "(ns [" + ";".join(str(x) for x in xs) + "])")
         return self.intern("l", "[" + ";".join(cn(x) for x in xs) + "]")
 
     def text(self):
-        hdr = ("From stdpp Require Import gmap.\nFrom Drummer.Model Require Import Base DB Launch LaunchRun.\nLocal Open Scope N_scope.\n")
+        hdr = ("From stdpp Require Import gmap.\nFrom Coq Require Import Uint63.\nFrom Drummer.Model Require Import Base DB Launch LaunchRun.\n"
+               "Local Open Scope uint63_scope.\n")
         return (hdr + "".join("Definition %s := %s.\n" % (n, t) for (n, t) in self.order) +
                 "Definition codes : list N := [\n" + ";\n".join(t for (t, _) in self.items) + "\n].\n"
                 "Definition R := Eval vm_compute in codes.\n"
@@ -92,7 +99,7 @@ def coq_draws(vf, c, o):
     pre = c.get("pre", draws)
     if cut <= len(pre):
         return vf.nl(pre[:cut])
-    return "(%s ++ rampN %d)" % (vf.nl(pre), cut - len(pre))
+    return "(%s ++ rampI %d)" % (vf.nl(pre), cut - len(pre))
 
 
 def coq_case(vf, c, ttl, o):
@@ -103,7 +110,7 @@ def coq_case(vf, c, ttl, o):
         obs = "(Plan [" + ";".join(coq_req(vf, q) for q in o["reqs"]) + "])"
     else:
         obs = {"err": "Refused", "panic": "Crash", "ood": "OutOfDraws"}[o["o"]]
-    return "lcode %d %s %s %s %s %s %s" % (ttl, cn(c["tick"]), hosts, shards, regs, coq_draws(vf, c, o), obs)
+    return "lcode %s %s %s %s %s %s %s" % (vf.intern("t", cn(ttl), True), cn(c["tick"]), hosts, shards, regs, coq_draws(vf, c, o), obs)
 
 
 def coq_vcase(vf, q):
